@@ -48,13 +48,17 @@ ASSUMPTIONS = ["CSV: the PKCS#7 layer below csblob.Verify is one bit per signer 
                "(dir_slot_unbound), a hashed item no directory has a slot for is accepted (special_blob_unbound_accepted), of two "
                "items of one type the last one counts, only the LAST signer info's cdhash attributes are read, "
                "a directory without code slots / with a short code limit binds no / less code (the signer's statement), "
-               "two directories of one hash type share one map entry (plist_same_alg_gap)"]
+               "two directories of one hash type share one map entry (plist_same_alg_gap; with a signed list that repeats an "
+               "entry a middle directory of that type is covered by nothing: same_alg_unvouched_directory_accepted)",
+               "CSV: the model describes the current code (Relic.CsVerify.tree: fixes F-CSV-1 994e09d and F-CSV-2 91159af in); "
+               "the behaviour of the original code (unvouched alternate accepted, fat slice ignoring Info.plist / "
+               "CodeResources) is a VIOLATION"]
 UNPROVED_C02 = ["Relic.Props.C02.csblob_every_directory_vouched_full (every code directory of an accepted superblob is covered by "
-                "the CMS): FALSE on the unchanged tree when the signer info has no cdhashes plist attribute — witness "
-                "csblob_unvouched_alternate_accepted, finding F-CSV-1; proved: alt_codedir_unvouched_rejected (plist present)",
-                "Relic.Props.C02.ipa_bundle_files_bound_full (a changed Info.plist / CodeResources of a bundle makes verifyIPA "
-                "fail): FALSE for fat executables — witness fat_drops_bundle_params, finding F-CSV-2; proved for thin ones "
-                "(thin_bundle_files_bound)"]
+                "the CMS, with no hypothesis on the signed list): false on every tree for signed lists that repeat an entry "
+                "(computed[] is a map keyed by hash function) — witness same_alg_unvouched_directory_accepted, "
+                "csblob_every_directory_vouched_full_false; proved for the current code for lists without repetition: "
+                "csblob_every_directory_vouched (+ alt_codedir_unvouched_rejected, fixed_alternates_need_plist); the original "
+                "defect F-CSV-1 (repaired by 994e09d) is csblob_every_directory_vouched_full_orig_false"]
 UNPROVED_C01 = ["Relic.Props.C01.csblob_sign_then_verify_bytes_full (byte level: parseSignature of the superblob csblob.Sign marshals is "
                 "accepted; needs the parseSuper/marshalSuperBlob and parseCodeDirectory/newCodeDirectory round trips on rendered "
                 "bytes); proved at the decision level for every hash family: csblob_sign_then_verify, "
@@ -166,7 +170,11 @@ _THM = [("alt-dir", "alt_codedir_unvouched_rejected"), ("third-dir", "alt_codedi
         ("dir-", "csblob_accept_iff"), ("cms-", "csblob_accept_iff"), ("primary-", "csblob_accept_iff"), ("slots-swapped", "csblob_accept_iff")]
 
 
-def _thm(mut):
+def _thm(mut, kind="verify"):
+    if kind == "wrap" and not mut.endswith("code-flip"):
+        return "ipa_bundle_files_bound"
+    if "only-cdh+" in mut or "no-cdhash-attrs+" in mut:
+        return "csblob_every_directory_vouched"
     for pat, t in _THM:
         if pat in mut:
             return t
@@ -185,7 +193,7 @@ def predicate(prop, op, il, mres, tag):
     if k in ("verify", "wrap"):
         mut, prot = f[2], f[3]
         if prot == "1" and il.startswith("ok"):
-            return ("Relic.Props.C02." + _thm(mut), "err",
+            return ("Relic.Props.C02." + _thm(mut, k), "err",
                     "mutation '%s' alters protected content (or adds a code directory nobody vouched for) and the verifier reports success" % mut)
         if prop == "C01" and mut.endswith((":none", ":resign-same")) and not il.startswith("ok"):
             return ("Relic.Props.C01.csblob_sign_then_verify", "ok", "relic's verifier rejects what relic's signer wrote: " + il[:200])
@@ -225,13 +233,6 @@ def matches_known(k, op, il, mres, tag):
     mut = f[2]
     if il.startswith("panic") and mres.startswith("panic") and il == mres and site and site in il:
         return True     # csblob.parseCodeDirectory slot slicing (listed under C11): same site in model and code
-    if site == "csblob.Verify:unvouched-alternate":
-        # identity: no plist attribute in the (last) signer info, an extra directory, and the model predicts acceptance too
-        return f[1] == "verify" and f[3] == "1" and il.startswith("ok") and mres.startswith("ok") and \
-            "+alt-dir-" in mut and mut.split(":")[1].startswith(("only-cdh+", "no-cdhash-attrs+")) and ";p=A" in f[-1]
-    if site == "macho.verifyFat:bundle-params-dropped":
-        return f[1] == "wrap" and f[3] == "1" and f[4] == "1" and il.startswith("ok") and mres.startswith("ok") and \
-            mut.split(":")[1] in ("info-plist-altered", "resources-altered")
     return False
 
 
